@@ -25,7 +25,8 @@ def burst_case(draw):
   # the body keeps the baton for long stretches so that the delivery threads lag behind
   lag = draw(st.lists(st.tuples(st.just(0), st.integers(50, 400)), max_size=3))
   sched_ = [list(x) for x in lag] + [list(x) for x in draw(schedule_st)]
-  return {"pubs": pubs, "schedule": sched_, "publishers": draw(st.sampled_from([1, 1, 2]))}
+  return {"pubs": pubs, "schedule": sched_, "publishers": draw(st.sampled_from([1, 1, 2])),
+          "before_start": draw(st.sampled_from([0, 0, 1, 2, 3, 4]))}
 
 
 class C08(Prop):
@@ -34,7 +35,8 @@ class C08(Prop):
   thorough_examples = 6000
   rule = ("Generated bursts of 2-9 publications (signal, priority from a small set so that equal "
           "priorities are common; None = default) made by the body thread (optionally split over "
-          "two publisher threads) against the real ActiveFabric under the deterministic scheduler; "
+          "two publisher threads; the first 0-4 of them before the fabric is started, so that they "
+          "are waiting in it when it starts) against the real ActiveFabric under the deterministic scheduler; "
           "schedules begin with long body segments so that several events wait in the fabric at "
           "once. One stamped harness recorder is subscribed fifo and one lifo to every signal, so "
           "each delivery thread's order is observed directly. Oracle, sound under any lag: (E) if "
@@ -66,9 +68,6 @@ class C08(Prop):
       for sig in SIGS:
         af.subscribe(recs["fifo"], Event(signal=signals[sig]), queue_type="fifo")
         af.subscribe(recs["lifo"], Event(signal=signals[sig]), queue_type="lifo")
-      af.start()
-      s.quiesce()
-
       def publish_range(ids):
         for i in ids:
           sig, prio = case["pubs"][i]
@@ -80,10 +79,16 @@ class C08(Prop):
             af.publish(Event(signal=signals[sig], payload=i), priority=prio)
           p["ret"] = s.steps
       n = len(case["pubs"])
+      # some publications are made before the fabric is started: they wait in it
+      b = min(case.get("before_start", 0), n)
+      publish_range(range(b))
+      af.start()
+      if not b:
+        s.quiesce()
       if case["publishers"] == 1:
-        publish_range(range(n))
+        publish_range(range(b, n))
       else:
-        ts = [ao.Thread(target=publish_range, args=(range(k, n, 2),), name="pub%d" % k) for k in (0, 1)]
+        ts = [ao.Thread(target=publish_range, args=(range(b + k, n, 2),), name="pub%d" % k) for k in (0, 1)]
         for t in ts:
           t.start()
         for t in ts:
